@@ -897,6 +897,20 @@ def C19(tier, seed):
                 steps.append({"op": "Log", "len": rng.choice([9, 12, 21, 40])})
             steps.append({"op": "Stop"})
             base.append({"sc": len(base) + 1, "cfg": c, "t0": 1000, "steps": steps, "origin": "rand"})
+        # the property on the model: FlwF.tla = Flw.tla with failing effects, every fault plan x every history in the bounds
+        fcfg = "MCFlwF_q.cfg" if tier == "quick" else "MCFlwF_t.cfg"
+        r = C.run_tlc("MCFlwF.tla", os.path.join(C.SPEC, fcfg), os.path.join(wd, "mc-flwf"), workers=6, timeout=3000)
+        if r["violated"] or r["deadlock"]:
+            raise C.ToolError(f"FlwF/{fcfg} violates {r['violated']}")
+        mc_stats = [{"cfg": fcfg, "states": r["states"], "transitions": r["transitions"], "wall_s": r["wall_s"]}]
+        states += r["states"]
+        transitions += r["transitions"]
+        rmut = C.run_tlc("MCFlwF.tla", os.path.join(C.SPEC, "MCFlwF_mut.cfg"), os.path.join(wd, "mc-flwf-mut"), workers=2, timeout=600)
+        if "C19_OnlyOwnFailureMissing" not in (rmut["violated"] or []):
+            raise C.ToolError("FlwF: the variant that drops the record after a failed rotation must violate C19_OnlyOwnFailureMissing")
+        C.log(f"[C19] TLC {fcfg}: {r['states']} distinct states; every fault plan (first failing effect 1..7/10, bursts) x every "
+              f"history of the bounded model: OnlyOwnFailureMissing, NoDestruction, RotationResumes, WriterFileLinked hold; the "
+              f"variant that drops the record after a failed rotation violates OnlyOwnFailureMissing (sanity of the invariant)")
         # phase 1: recording run -> number of file-system effects per history
         for b in base:
             b["points"] = True
@@ -925,6 +939,10 @@ def C19(tier, seed):
                     v["points"] = False
                     v["steps"] = [{"op": "Fault", "name": "*", "from": k, "burst": bl, "kind": "other"}] + b["steps"]
                     v["tag"] = {"k": k, "burst": bl, "base": b["sc"]}
+                    # conform mode with faults (TraceFlwF.tla): the effects of every call and the injected failures are
+                    # recorded for the scenarios inside FlwF.tla's domain
+                    v["conf"] = C.conformable_faults(v)
+                    v["fxrec"] = v["conf"]
                     scens.append(v)
         limit = 9000 if tier == "quick" else 200000
         if len(scens) > limit:
@@ -933,6 +951,13 @@ def C19(tier, seed):
             for i, v in enumerate(scens):
                 v["sc"] = i + 1
         res = C.run_sharded(pid, "MonC19", scens, wd)
+        cf = C.conform(res["traces"], wd, module="TraceFlwFMC.tla", cfg="TraceFlwF.cfg")
+        C.log(f"[C19] conform mode with faults (TraceFlwF.tla): {cf['scenarios']} fault runs / {cf['events']} events checked "
+              f"against FlwF.tla (state after every call, order of the file-system effects, what is reported) - "
+              + ("all accepted" if not cf["drifts"] else f"{len(cf['drifts'])} not accepted"))
+        for (dsc, dn, dev) in cf["drifts"][:10]:
+            C.log(f"NOTE conformance-drift: scenario {dsc} event {dn} ({dev}) is not a step of FlwF.tla - the code no longer "
+                  f"follows the detailed model of the error handling there (no property verdict; the monitor decides)")
         allbads = rec["bads"] + res["bads"]
         C.log(f"[C19] {len(base)} histories with {sum(hits.values())} file-system effects ({ptnames}); {res['scenarios']} fault "
               f"runs (every effect index x bursts {bursts}) / {res['events']} events; judged by MonC19.tla in {res['wall_s']}s; "
@@ -955,7 +980,10 @@ def C19(tier, seed):
                "samples": C.sample_traces(res["traces"], k=2, maxev=12),
                "histories": len(base), "effects_total": sum(hits.values()), "effects_by_hook": ptnames,
                "bursts": bursts, "events_judged": res["events"], "states": states, "transitions": transitions,
-               "traces_validated_against_impl": res["scenarios"], "monitor": "MonC19.tla",
+               "traces_validated_against_impl": res["scenarios"], "monitor": "MonC19.tla", "model_checking_runs": mc_stats,
+               "conform_mode": {"spec": "TraceFlwF.tla", "traces_checked": cf["scenarios"], "events_checked": cf["events"],
+                                "accepted": cf["scenarios"] - len({d[0] for d in cf["drifts"]}),
+                                "drifts": [{"sc": d[0], "n": d[1], "ev": d[2]} for d in cf["drifts"][:20]]},
                "monitor_counters": res["counts"], "predicate_failures": len(allbads),
                "known_findings_hit": [{"id": f["id"], "count": c} for f, c in known + k0],
                "exhaustive": len(scens) < limit, "harness_build_s": round(build_s, 1)}
